@@ -341,11 +341,16 @@ theorem length_encModelData (m : AbstractModel) (a b : Nat) :
       (encModelData m.version (modelDataAt m b)).length := by
   simp only [encModelData, modelDataAt, List.length_append, length_lodRows_enc m.lods 0 a b]
 
+/-- `dataStart m` is the length of the two header blocks -/
+theorem length_headers (m : AbstractModel) :
+    (encFileHeader (fileHeader m) ++ encModelData m.version (modelData m)).length = dataStart m := by
+  rw [List.length_append, length_encFileHeader, dataStart, runtimeBlockSize, modelData,
+    length_encModelData m _ 0]
+
 theorem sections_slice (m : AbstractModel) : IsSlice (encodeMdl m) (dataStart m) (sections m) := by
-  refine ⟨encFileHeader (fileHeader m) ++ encModelData m.version (modelData m), [], ?_, ?_⟩
-  · simp [encodeMdl]
-  · rw [List.length_append, length_encFileHeader, dataStart, runtimeBlockSize, modelData,
-      length_encModelData m _ 0]
+  refine ⟨encFileHeader (fileHeader m) ++ encModelData m.version (modelData m), [], ?_,
+    length_headers m⟩
+  simp [encodeMdl]
 
 /-- `file` has the layout of `m`: the header stage of the reader returns the file header and the
 runtime block of `m` (what is left behind the runtime block is not constrained: the reader drops
